@@ -40,7 +40,7 @@ func Select{{short .}}(t *Dense, axis int) (retVal [][]{{asType .}}, err error) 
 	default:
 		// size := t.Shape()[axis]
 		data := t.{{sliceOf .}}
-		stride := t.Strides()[axis]
+		stride := ProdInts(t.Shape()[axis+1:]) // the block length; the stride of an axis of extent 1 need not be it
 		upper := ProdInts(t.Shape()[:axis+1])
 		retVal = make([][]{{asType .}}, 0, upper)
 		for i, r := 0, 0; r < upper; i += stride {
